@@ -226,6 +226,24 @@ def rule_D6_ownership(tree: Tree) -> RuleResult:
                             if head in muts and head not in f.params and not _is_local(f, head):
                                 bad.append(f"{m.short}:{f.qualname} writes module-level `{head}[…]`")
     r.ob(not bad, Finding("D6a", "tlexport:module-level-caches", f"flow code writes module-level containers shared by all connections: {bad[:4]}", "tlexport/"))
+    # module-level templates with mutable elements handed out by shallow copy: dict(T) / T.copy() / list(T) / {**T} share the inner lists / dicts
+    r.instances += 1
+    bad = []
+    for m in tree.modules.values():
+        nested = {k for k, v in m.assigns.items() if _is_mutable_literal(v) and any(x is not v and _is_mutable_literal(x) for x in ast.walk(v))}
+        if not nested:
+            continue
+        for f in m.functions.values():
+            for n in body_walk(f.node):
+                if isinstance(n, ast.Name) and n.id in nested and isinstance(n.ctx, ast.Load) and n.id not in f.params and not _is_local(f, n.id):
+                    p = getattr(n, "_parent", None)
+                    shallow = (isinstance(p, ast.Call) and (dotted(p.func) in ("dict", "list", "set", "copy.copy") and n in p.args)) or \
+                              (isinstance(p, ast.Attribute) and p.attr == "copy") or isinstance(p, (ast.Starred, ast.Dict))
+                    stored = shallow or isinstance(p, (ast.Assign, ast.AnnAssign))
+                    if stored:
+                        bad.append(f"{m.short}:{f.qualname} takes `{src(p, 50)}` from the module-level template `{n.id}`, whose inner lists / dicts are then shared by every "
+                                   f"object initialised from it")
+    r.ob(not bad, Finding("D6a", "tlexport:shared-template-elements", f"per-connection state must not alias mutable elements of a module-level object: {bad[:3]}", "tlexport/"))
     return r
 
 
@@ -242,7 +260,37 @@ NONDET_CALLS = {"hash", "id", "random.random", "random.randint", "random.choice"
                 "time.monotonic", "time.perf_counter", "datetime.datetime.now", "datetime.now", "datetime.datetime.utcnow", "uuid.uuid4", "uuid.uuid1",
                 "os.getcwd", "os.listdir", "os.getpid", "os.urandom", "os.getenv", "os.environ.get", "glob.glob", "secrets.token_bytes",
                 "set.pop", "os.scandir", "os.walk", "as_completed", "concurrent.futures.as_completed", "concurrent.futures.ThreadPoolExecutor", "ThreadPoolExecutor",
-                "ProcessPoolExecutor", "concurrent.futures.ProcessPoolExecutor", "threading.Thread", "multiprocessing.Pool", "concurrent.futures.wait"}
+                "ProcessPoolExecutor", "concurrent.futures.ProcessPoolExecutor", "threading.Thread", "multiprocessing.Pool", "concurrent.futures.wait",
+                # working directory / host / user / clock dependent values
+                "os.path.abspath", "os.path.realpath", "os.path.expanduser", "os.path.relpath", "os.path.getmtime", "os.path.getctime", "os.stat", "os.uname", "os.getlogin",
+                "pathlib.Path.cwd", "Path.cwd", "pathlib.Path.home", "Path.home", "socket.gethostname", "socket.getfqdn", "getpass.getuser", "platform.node",
+                "platform.platform", "platform.uname", "time.strftime", "time.localtime", "time.gmtime", "time.ctime", "time.asctime", "datetime.datetime.today",
+                "datetime.date.today", "date.today", "tempfile.mkstemp", "tempfile.mkdtemp", "tempfile.NamedTemporaryFile"}
+NONDET_METHODS = {"resolve", "absolute", "expanduser"}  # pathlib: cwd / home dependent
+
+
+def _only_logged(f: Func, call: ast.Call) -> bool:
+    """The value of `call` can only reach log output: it is an argument of a logging call, or is bound to a local that is read only inside logging calls."""
+    def in_logging(n: ast.AST) -> bool:
+        for a in ancestors(n):
+            if isinstance(a, ast.Call) and (dotted(a.func) or "").startswith(("logging.", "logger.")):
+                return True
+            if isinstance(a, ast.stmt):
+                break
+        return False
+    if in_logging(call):
+        return True
+    st = call
+    for a in ancestors(call):
+        if isinstance(a, ast.stmt):
+            st = a
+            break
+    if isinstance(st, ast.Assign) and len(st.targets) == 1 and isinstance(st.targets[0], ast.Name):
+        v = st.targets[0].id
+        uses = [n for n in body_walk(f.node) if isinstance(n, ast.Name) and n.id == v and isinstance(n.ctx, ast.Load)]
+        stores = [n for n in body_walk(f.node) if isinstance(n, ast.Name) and n.id == v and isinstance(n.ctx, ast.Store)]
+        return len(stores) == 1 and all(in_logging(u) for u in uses)
+    return False
 
 
 def rule_D6_nondet(tree: Tree) -> RuleResult:
@@ -260,8 +308,9 @@ def rule_D6_nondet(tree: Tree) -> RuleResult:
             if isinstance(n, ast.Call):
                 d = dotted(n.func) or ""
                 q = tree.qualname_of(f.module, n.func) or d
-                if d in NONDET_CALLS or q in NONDET_CALLS:
-                    bad.append((n, f"call of {d}"))
+                if d in NONDET_CALLS or q in NONDET_CALLS or (isinstance(n.func, ast.Attribute) and n.func.attr in NONDET_METHODS and not n.args):
+                    if not _only_logged(f, n):
+                        bad.append((n, f"call of {d or n.func.attr}"))
             if isinstance(n, ast.Attribute) and dotted(n) in ("os.environ",):
                 bad.append((n, "reads os.environ"))
         for n, what in bad:
